@@ -128,10 +128,27 @@ def run_c11_case(res: dict, params: dict, seed: Any, judge_c10: bool = False, ju
         await settle(0.5)
         net = me.client.network
         bob_ports = {x for x in (bob.port, bob.obf_port) if x}
-        state = {'ctp': None}
+        state = {'ctp': None, 'pierce_accepting': asyncio.Event(), 'direct_connected': asyncio.Event()}
+        if p.get('rendezvous'):
+            # rendezvous of the two paths at a known phase, then a swept number of loop steps
+            orig_accepted = net.on_peer_accepted
+
+            async def on_peer_accepted(connection):
+                state['pierce_accepting'].set()
+                return await orig_accepted(connection)
+            net.on_peer_accepted = on_peer_accepted
 
         def planner(node, host, port, attempt):
             plan = ConnPlan(latency=0.005, seg='random')
+            if p.get('same_instant'):
+                plan = ConnPlan(latency=0.0, seg='whole', seg_lat=(0.0, 0.0))
+                if node == 'me' and port in bob_ports:
+                    plan.latency = 0.0 if p['direct'] == 'fast' else p['d_lat']
+                    plan.yield_steps = p.get('d_yields', 0)
+                    if p.get('rendezvous') == 'direct-waits-for-pierce-accept':
+                        plan.gate = state['pierce_accepting']
+                    plan.on_connected = state['direct_connected'].set
+                return plan
             if node == 'me' and port in bob_ports:
                 d = p['direct']
                 plan.latency = p['d_lat']
@@ -152,7 +169,12 @@ def run_c11_case(res: dict, params: dict, seed: Any, judge_c10: bool = False, ju
             state['ctp'] = msg
             ind = p['indirect']
             if ind in ('pierce-fast', 'pierce-slow'):
-                await asyncio.sleep(p['i_lat'])
+                if p.get('same_instant'):
+                    if p.get('rendezvous') == 'pierce-waits-for-direct-connect':
+                        await state['direct_connected'].wait()
+                    await yields(p.get('i_yields', 0))
+                else:
+                    await asyncio.sleep(p['i_lat'])
                 w.pending_pierce[('bob', msg.ticket)] = (msg.typ, msg.username)
                 await bob.pierce(msg)
             elif ind == 'cannot':
@@ -217,6 +239,23 @@ def run_c11_case(res: dict, params: dict, seed: Any, judge_c10: bool = False, ju
                 if outcome != want:
                     viol.append((f"c11:outcome:{outcome}-but-expected-{want}:direct-{p['direct']}:indirect-{p['indirect']}:{p['mode']}",
                                  {'params': p, 't_call': t_call, 't_ret': t_ret}))
+
+        # "when it returns or raises, exactly the returned connection (if any) remains": judged as soon as
+        # the instant of the return has settled (closing sockets may still have their FIN in flight)
+        if judge_c11 and outcome in ('connection', 'PeerConnectionError'):
+            await settle(0.0)
+            await yields(30)
+            left = [c for c in net.peer_connections if c is not conn]
+            left = [c for c in left if c.state.name not in ('CLOSING', 'CLOSED')]
+            # a late pierce that is still being turned away is in AWAITING_INIT: give it its own instant
+            if left:
+                await settle(0.05)
+                left = [c for c in net.peer_connections if c is not conn and c.state.name not in ('CLOSING', 'CLOSED')
+                        and c.connection_state.name != 'AWAITING_INIT']
+            if left:
+                viol.append((f"c11:at-return:other-connection-left:{'in' if left[0].incoming else 'out'}:"
+                             f"{left[0].connection_state.name}:{p['mode']}",
+                             {'n': len(left), 'params': p, 'returned_incoming': None if conn is None else conn.incoming}))
 
         # usability of the returned connection
         if conn is not None and judge_c11:
